@@ -1,0 +1,31 @@
+//go:build verif
+
+// Contracts for the govc deductive verifier (see /verif/DESIGN.md). This file
+// contains comments only and is compiled only with the build tag "verif".
+
+package ipinfo
+
+// ---------------------------------------------------------------------------
+// Location class of a client address (C20): exactly one class, decided by the
+// class of the address alone, for every address and every database behaviour
+// (the IPInfoMap answer is fully symbolic).
+// ---------------------------------------------------------------------------
+
+//@ func GetIPInfoFromIP
+//@   props C20 C18
+//@   ensures[C20,disabled-empty] ip2info == nil ==> result.0.CountryCode == "" && result.1 == nil
+//@   ensures[C20,nil-XA] ip2info != nil && ip == nil ==> result.0.CountryCode == "XA" && result.1 != nil
+//@   ensures[C20,non-global-XL] ip2info != nil && ip != nil && !ip_is_global_unicast(ip) ==> result.0.CountryCode == "XL"
+//@   trace[C20,no-lookup-unless-global] never ipinfo.IPInfoMap.GetIPInfo when ip2info == nil || ip == nil || !ip_is_global_unicast(ip)
+//@   trace[C20,one-lookup-when-global] exactly 1 ipinfo.IPInfoMap.GetIPInfo when ip2info != nil && ip != nil && ip_is_global_unicast(ip)
+//@   trace[C20,db-error-XD] each ipinfo.IPInfoMap.GetIPInfo satisfies $res1 != nil ==> result.0.CountryCode == "XD"
+//@   trace[C20,db-miss-ZZ] each ipinfo.IPInfoMap.GetIPInfo satisfies $res1 == nil && $res0.CountryCode == "" ==> result.0.CountryCode == "ZZ"
+//@   trace[C20,db-answer] each ipinfo.IPInfoMap.GetIPInfo satisfies $res1 == nil && $res0.CountryCode != "" ==> result.0.CountryCode == $res0.CountryCode && result.0.ASN.Number == $res0.ASN.Number
+
+//@ func GetIPInfoFromAddr
+//@   props C20 C18
+//@   ensures[C20,nil-XA] addr == nil ==> result.0.CountryCode == "XA" && result.1 != nil
+//@   trace[C20,unsplittable-XA] each net.SplitHostPort satisfies $res2 != nil ==> result.0.CountryCode == "XA" && result.1 != nil
+//@   trace[C20,unparsable-XA] each net.ParseIP satisfies $res0 == nil ==> result.0.CountryCode == "XA" && result.1 != nil
+//@   trace[C20,no-lookup-when-unparsable] never ipinfo.GetIPInfoFromIP when addr == nil
+//@   trace[C20,class-from-ip] each ipinfo.GetIPInfoFromIP satisfies result.0.CountryCode == $res0.CountryCode && $arg1 != nil
